@@ -58,6 +58,9 @@
          compiler panic for `default: ...; fallthrough`)                                                       undoc (defect)
          -> default may stand anywhere only in switches without fallthrough whose cases are distinct constants
      U12 goto is ignored                                                                                       undoc (defect)
+     U13 a panic raised inside a range loop or a switch and recovered by a deferred call leaves the statement's temporaries
+         on the evaluation stack (the function "returns" extra values)                                         undoc (defect)
+         -> dynamic: "oos" when the recovered panic was raised while a range loop / switch was running
      G1  order of evaluation between a variable read and a call that modifies the variable                     go
          -> an expression that contains a call with side effects reads no mutable global / heap object directly
      G2  map iteration order                                                                                   go
